@@ -32,6 +32,8 @@ type Exec struct {
 	bounded  []string
 	forceInline bool
 	topOpts  *evalOpts
+	ufs      map[string]ufInfo
+	trackObj map[string]*Object
 }
 
 type edge struct {
@@ -194,6 +196,10 @@ func (x *Exec) mergeStates(ins []State, what string) State {
 		var acc Value
 		for i := len(ins) - 1; i >= 0; i-- {
 			s := ins[i]
+			if _, has := s.mem[o]; !has && o.Kind == "track" {
+				acc = nil
+				break // memo of an opaque application: only valid if present on every path
+			}
 			if _, has := s.mem[o]; !has && !o.Lazy {
 				continue // object created on another path: dead here
 			}
@@ -207,6 +213,9 @@ func (x *Exec) mergeStates(ins []State, what string) State {
 				bail("cannot merge contents of %s at %s (shapes differ)", o, what)
 			}
 			acc = m
+		}
+		if acc == nil {
+			continue
 		}
 		out.mem[o] = x.nameValue("mg", acc)
 	}
@@ -456,7 +465,7 @@ func (x *Exec) runLoop(fr *frame, li *loopInfo, inc []edge) []edge {
 	pre := sin.clone()
 	fr.preLoop[li] = &pre
 	for i, inv := range lc.Invariants {
-		g := x.evalBoolClause(fr, &sin, inv, x.loopOpts(fr, &pre))
+		g := x.evalGoalClause(fr, &sin, inv, x.loopOpts(fr, &pre))
 		x.vc.oblige(&Obligation{Name: fmt.Sprintf("%s.inv%d.entry", loopName, i+1), Kind: "inv-entry", Func: fr.name,
 			Guard: sin.reach, Goal: g, Src: inv.Src, Pos: fmt.Sprintf("%s:%d", inv.File, inv.Line)})
 	}
@@ -514,7 +523,7 @@ func (x *Exec) runLoop(fr *frame, li *loopInfo, inc []edge) []edge {
 				}
 			}
 			for i, inv := range lc.Invariants {
-				g := x.evalBoolClause(fr, &s, inv, x.loopOpts(fr, &pre))
+				g := x.evalGoalClause(fr, &s, inv, x.loopOpts(fr, &pre))
 				x.vc.oblige(&Obligation{Name: fmt.Sprintf("%s.inv%d.preserved@%d", loopName, i+1, e.from.Index), Kind: "inv-preserved", Func: fr.name,
 					Guard: s.reach, Goal: g, Src: inv.Src, Pos: fmt.Sprintf("%s:%d", inv.File, inv.Line)})
 			}
